@@ -230,7 +230,7 @@ class FileOverlay:
                 if self.data[ls:mm.start()].lstrip().startswith(b"//"):
                     continue
                 self.replace(mm.start(), mm.start() + len(b"verifier"), "verifier_m")
-        eds = sorted(self.edits, key=lambda x: (x[0], x[4]))
+        eds = sorted(self.edits, key=lambda x: (x[0], 0 if x[0] == x[1] else 1, x[4]))
         # check no overlapping replaces
         out = bytearray()
         tagmap = []
